@@ -231,7 +231,32 @@ ODD_MEMBERS = ["__doc__", "__class__", "__dict__", "__init__", "__eq__", "__slot
 ODD_CLASSES = [["mc.ref.beans.Plain", []], ["mc.ref.beans.Slotted", []], ["mc.ref.beans.ReadOnly", []], ["decimal.Decimal", ["1.5"]], ["fractions.Fraction", [1, 3]]]
 
 
+class _Missing(dict):
+    def __missing__(self, key):
+        return ["made-up", []]
+
+
+class _MissingRaises(dict):
+    def __missing__(self, key):
+        raise KeyError(key)
+
+
+def _mappings():
+    import collections
+
+    dd = collections.defaultdict(list)
+    dd["k"].append(1)
+    dl = collections.defaultdict(lambda: ["decimal.Decimal", ["1"]])
+    dl["a"] = None
+    return [dd, dl, collections.defaultdict(dict), _Missing(a=1), _Missing(), _MissingRaises(k=[1]), collections.OrderedDict([("b", 1), ("a", (2,))]), collections.Counter("aab"),
+            [dd], {"k": dl}, (_Missing(a=1),), {"o": {"i": collections.defaultdict(int)}}]
+
+
 def failure_cases(tier):
+    # mappings that are dicts with a lookup protocol of their own: load and dump treat them as the plain dict with the same items, and leave them alone
+    for i in range(len(_mappings())):
+        yield ("MAPPING", i, "load")
+        yield ("MAPPING", i, "dump")
     for ki in range(len(ODD_MEMBERS)):
         for cls in ODD_CLASSES:
             for val in ("v", [1], {"__jsonclass__": GOOD_BEAN, "z": 2}):
@@ -250,6 +275,28 @@ def failure_cases(tier):
 def check_failure(case):
     bad, ci, what = case
     out = Out(cls="%s-failure" % what)
+    if bad == "MAPPING":
+        def plain(v):
+            if isinstance(v, dict):
+                return {k: plain(x) for k, x in v.items()}
+            return type(v)(plain(i) for i in v) if isinstance(v, (list, tuple)) else v
+        x = _mappings()[ci]
+        fn = jsonclass.load if what == "load" else jsonclass.dump
+        out.cls = "mapping-%s" % what
+        before = snapshot(x, ids=False)
+        try:
+            want = ("ok", snapshot(fn(plain(x)), ids=False))
+        except Exception as ex:
+            want = ("raises", type(ex).__name__)
+        try:
+            got = ("ok", snapshot(fn(x), ids=False))
+        except Exception as ex:
+            got = ("raises", type(ex).__name__)
+        if snapshot(x, ids=False) != before:
+            out.bad("C15/%s-modifies-its-argument" % what, "%s(%r) left its argument as %r" % (what, _mappings()[ci], x))
+        if got != want:
+            out.bad("C15/%s-of-mapping-differs-from-plain-dict" % what, "%s(%r): %r, for the plain dict with the same items: %r" % (what, _mappings()[ci], got, want))
+        return out
     if what == "load":
         if isinstance(bad, tuple) and bad[0] == "MEMBER":
             x = json.loads(json.dumps({"__jsonclass__": bad[2], "first": 1, ODD_MEMBERS[bad[1]]: bad[3], "last": [2]}))
